@@ -40,6 +40,9 @@ func (r *vfFragReader) Read(p []byte) (int, error) {
 	n := max
 	if !r.greedy {
 		n = 1 + vfChoice(max)
+		if n > max {
+			panic("verif: replay tape misaligned (read size beyond the buffer)")
+		}
 	}
 	copy(p, r.data[r.pos:r.pos+n])
 	r.pos += n
@@ -101,4 +104,19 @@ func vfBytesEq(a, b []byte) bool {
 		}
 	}
 	return true
+}
+
+// vfSeedPool puts a buffer of a chosen capacity into larking's byte pool, so that the code under
+// test also runs with small recycled buffers (a real sync.Pool may hand back any earlier buffer).
+func vfSeedPool() {
+	switch vfChoice(3) {
+	case 0:
+		// fresh pool: Get falls back to New (capacity 64)
+	case 1:
+		b := make([]byte, 0, 1)
+		bytesPool.Put(&b)
+	default:
+		b := make([]byte, 0, 8)
+		bytesPool.Put(&b)
+	}
 }
